@@ -120,8 +120,21 @@ def _strip_chars(s, chars):
     return s[i:j]
 
 
+_MEMO = {}
+
+
 def normal_forms(s, bits):
     """set of candidate normal forms of s under the flag set `bits` (usually one element)"""
+    key = (s, bits)
+    got = _MEMO.get(key)
+    if got is None:
+        if len(_MEMO) > 200000:
+            _MEMO.clear()
+        got = _MEMO[key] = frozenset(_normal_forms(s, bits))
+    return got
+
+
+def _normal_forms(s, bits):
     cs, st, cl, sa = flag_tuple(bits)
     pieces = []
     for seg, isrun in _segments(s):
